@@ -37,3 +37,13 @@ Theorem C18_listed_transactions_are_the_nonzero_trades : forall (A : Type) (root
   In tx (report_transactions root) -> tx_qty tx <> 0.
 Proof. exact listed_iff_nonzero. Qed.
 Print Assumptions C18_listed_transactions_are_the_nonzero_trades.
+
+(* the hypotheses of the sum-to-one theorem are satisfiable (a two-security strategy, row 1) *)
+Example C18_sum_to_one_hypotheses_satisfiable : forall (A : Type) (g0 : strat RNumI A) (s0 : sec RNumI),
+  let root : node RNumI A :=
+      NStrat (set_hg_values (N:=RNumI) ([100; 110] : list R) (set_hg_cash (N:=RNumI) ([100; 40] : list R) (set_g_fi false g0)))
+             [NSec (set_h_values (N:=RNumI) ([0; 50] : list R) s0); NSec (set_h_values (N:=RNumI) ([0; 20] : list R) s0)] [] None in
+  root_fi root = false /\ RowBS A 1 root /\
+  Forall (fun s : sec RNumI => (1 < length (h_values s))%nat) (secs_of root) /\
+  (1 < length (h_vals root))%nat /\ row 1 (h_vals root) <> 0.
+Proof. exact rowbs_example. Qed.
